@@ -3,9 +3,12 @@
 from .. import rules_config
 
 EXPLANATION = (
-    "Static analysis of the glue around argparse/configparser (whose own semantics are trusted). Z1: in "
-    "Configuration.__init__ the config files are loaded into self.defaults, these defaults are installed with "
-    "parser.set_defaults, and only then the command line is parsed - precedence by construction. Z2: the OPTIONS table "
+    "Static analysis of the glue around argparse/configparser (whose own semantics are trusted). Z1: "
+    "Configuration.__init__ evaluated with recording stand-ins for load_configuration and the argument parser: the config files "
+    "are loaded first, the defaults given to the parser contain what the files set, only then the command line is parsed, and the "
+    "parsed value is what the Configuration stores - precedence by construction. Z14: setup_userdata does not write to the dictionary "
+    "it was given (the shared default) and the -D defines win. Z15: configured runner aliases win over built-in ones. RF8: the config "
+    "readers keep no memo. Z2: the OPTIONS table "
     "(extracted from the source): every negative (--no-x / store_false) option shares its dest with a positive option; "
     "both config readers (ini and pyproject.toml) have a branch for every action kind that occurs in the config-file "
     "schema. Z9: both readers evaluated on a config token with one option of every action kind: each value lands under "
@@ -23,7 +26,7 @@ EXPLANATION = (
     "text converted, conversion errors propagate.")
 NOT_DECIDED = ("argparse's own resolution of defaults and option polarity, config-file discovery on disk, quote stripping "
                "on concrete -D strings, the order of list-valued options inside configparser")
-TECHNIQUE = "static analysis: must-precede rule on Configuration.__init__, table-consistency rules on OPTIONS and the two config readers (sibling agreement), abstract evaluation of the path coupling, getas decision table and shared-defaults effect rule; static constant propagation of the string-level glue (the source interpreted on enumerated literal inputs, stdlib calls folded) against oracles written in the rule"
+TECHNIQUE = "static analysis: Configuration.__init__ evaluated with recording stand-ins for the file loader and the argument parser (order and data flow of the precedence chain), must-precede rule for the userdata, table-consistency rules on OPTIONS and the two config readers (sibling agreement), abstract evaluation of the path coupling, getas decision table and shared-defaults effect rule; static constant propagation of the string-level glue (the source interpreted on enumerated literal inputs, stdlib calls folded) against oracles written in the rule"
 
 
 def run(chk, ix, tier):
